@@ -43,9 +43,14 @@ fn main() {
         Some("replay") => {
             let t = table();
             let f = std::io::BufReader::new(std::fs::File::open(&args[2]).unwrap());
+            // a case can abort the process (allocation failure, double free): the driver restarts after it
+            let from: usize = args.get(3).and_then(|s| s.parse().ok()).unwrap_or(0);
             for (i, line) in f.lines().enumerate() {
                 let line = line.unwrap();
-                if line.trim().is_empty() { continue; }
+                if i < from || line.trim().is_empty() { continue; }
+                // announce the case before running it, so that an abort can be attributed
+                writeln!(out, "{}", json!({"start": i})).unwrap();
+                out.flush().unwrap();
                 let case: Value = serde_json::from_str(&line).unwrap();
                 let key = case["key"].as_str().unwrap();
                 let obs = match t.get(key) {
@@ -53,6 +58,7 @@ fn main() {
                     None => json!({"error": "no such type in the compiled universe"}),
                 };
                 writeln!(out, "{}", json!({"i": i, "key": key, "obs": obs})).unwrap();
+                out.flush().unwrap();
             }
         }
         Some("keys") => {
